@@ -15,6 +15,9 @@
 (*           Scale * (admitted bytes of events i+1..j + Burst + MaxPkt)      *)
 (*              >= Rate*(tj-ti)                                             *)
 (* Unlimited "a rate of zero means unlimited": every packet is admitted     *)
+(* NoStarve "never starves a subscriber": backlogged and Burst >= MaxPkt:   *)
+(*         every window in which two maximum-size packets' worth accrues    *)
+(*         contains an admission                                            *)
 (* PolicyEnforced "the policy set through the control plane is the one      *)
 (*         enforced": Rate is the rate handed to the control plane API, not *)
 (*         what happens to be in the map                                    *)
@@ -47,11 +50,12 @@ EXTENDS Integers, Sequences, TLC
 CONSTANTS Rate, Scale, Burst, MaxPkt, MaxGap, MaxLen
 
 VARIABLES tok, now, hist,  \* tok = tokens * Scale; hist = sequence of [t, size, adm]
-          lo, hi, started  \* potentials (see above)
-vars == <<tok, now, hist, lo, hi, started>>
-PView == <<tok, lo, hi, started>>
+          lo, hi, started, \* potentials (see above)
+          dry              \* Rate * (time since the last admission, or since the first arrival)
+vars == <<tok, now, hist, lo, hi, started, dry>>
+PView == <<tok, lo, hi, started, dry>>
 
-Init == tok = Burst * Scale /\ now = 0 /\ hist = <<>> /\ lo = 0 /\ hi = 0 /\ started = FALSE
+Init == tok = Burst * Scale /\ now = 0 /\ hist = <<>> /\ lo = 0 /\ hi = 0 /\ started = FALSE /\ dry = 0
 
 Min(a, b) == IF a < b THEN a ELSE b
 Max(a, b) == IF a > b THEN a ELSE b
@@ -69,6 +73,7 @@ Arrive(gap, size) ==
      /\ started' = TRUE
      /\ lo' = Max(0, lo + Rate * g - (IF adm THEN size * Scale ELSE 0))
      /\ hi' = IF adm THEN Max(hi + size * Scale - Rate * g, size * Scale) ELSE Max(0, hi - Rate * g)
+     /\ dry' = IF adm THEN 0 ELSE Min(dry + Rate * g, Scale * 3 * MaxPkt)
 
 \* offered load >= rate: the packet is at least as large as what accrued in the gap
 Backlogged(gap, size) == size * Scale >= Rate * gap
@@ -87,6 +92,10 @@ Upper == \A i, j \in 1..Len(hist) : (i <= j /\ hist[i].adm /\ hist[j].adm) =>
 Lower == \A i, j \in 1..Len(hist) : i <= j =>
             Scale * (Adm(hist, i + 1, j) + Burst + MaxPkt) >= Rate * (hist[j].t - hist[i].t)
 
+\* "never starves" (Burst >= MaxPkt, backlogged): between two admissions less than two maximum-size packets' worth
+\* accrues, so every window in which that much accrues contains an admission
+NoStarveP == dry < Scale * 2 * MaxPkt
+NoStarve == \A i, j \in 1..Len(hist) : (i <= j /\ Rate * (hist[j].t - hist[i].t) >= Scale * 2 * MaxPkt) => Adm(hist, i + 1, j) > 0
 UpperP == hi <= Scale * Burst
 LowerP == lo <= Scale * (Burst + MaxPkt)
 \* both formulations agree on every history (checked with MaxLen > 0): the potentials speak about the windows
@@ -98,4 +107,5 @@ LowerNow == LET j == Len(hist) IN \A i \in 1..j :
 Agree == hist # <<>> => /\ (hist[Len(hist)].adm => (UpperNow <=> UpperP))
                         /\ (LowerNow <=> LowerP)
 UView == <<tok, hi, started>>
+SView == <<tok, started, dry>>
 =============================================================================
